@@ -23,7 +23,7 @@ from unittest import mock
 from hypothesis import strategies as st
 
 from vlib.runner import Part, Out
-from vlib.oneworker import run_fresh, bounded
+from vlib.oneworker import run_fresh, bounded, DeferredExecutor, drive_deferred
 from vlib.ref import descriptor as ref
 
 PROPERTY_ID = "C02"
@@ -205,10 +205,23 @@ async def _run_stream(case, out):
                 drawn.append(iv)
                 yield iv
 
+        dex = None
+        if case.get("exec") in ("lifo", "fifo"):
+            # the harness owns the executor: a write that create_stream() did not wait for is still queued when it returns
+            dex = DeferredExecutor(case["exec"])
+            loop.set_default_executor(dex)
+            out.label("exec:deferred_" + case["exec"])
         with _Patched(m):
-            status, res = await bounded(StreamDescriptor.create_stream(
-                loop, blob_dir, src, key=key, iv_generator=gen(), old_sort=case.get("old_sort", False)),
-                loop, 4 * est_blobs + 40)
+            if dex is not None:
+                status, res = await drive_deferred(StreamDescriptor.create_stream(
+                    loop, blob_dir, src, key=key, iv_generator=gen(), old_sort=case.get("old_sort", False)),
+                    loop, dex, 4 * est_blobs + 40)
+            else:
+                status, res = await bounded(StreamDescriptor.create_stream(
+                    loop, blob_dir, src, key=key, iv_generator=gen(), old_sort=case.get("old_sort", False)),
+                    loop, 4 * est_blobs + 40)
+        if dex is not None and status != "ok":
+            dex.release()
         out.label("mode:" + ("real" if m is None else "scaled_%d" % m), "iv:" + case["iv"]["mode"])
         if status == "hang":
             out.violate("create-stream-hangs", "size %d max_blob %r: not finished after %d barriers" % (
@@ -273,6 +286,11 @@ async def _run_stream(case, out):
                 out.check(theirs == pt, "decrypt_blob_bytes-differs", "blob %d" % i)
             except ValueError as e:
                 out.violate("decrypt_blob_bytes-raises", "blob %d: %r" % (i, e))
+        if dex is not None:
+            if dex.pending:
+                out.violate("create-stream-returned-before-blobs-written", "%d blob write(s) still queued in the executor when "
+                            "create_stream() returned (%d data blobs)" % (len(dex.pending), len(blobs) - 1))
+            dex.release()
         if ok:
             joined = b"".join(plain)
             if joined != content:
@@ -393,7 +411,8 @@ def scaled_case(draw):
                                  st.builds(lambda s: {"size": size, "seed": s}, st.integers(0, 9999)),
                                  st.just({"size": size, "pattern": "zeros"})))
     return {"max_blob": m, "content": content, "key": draw(hex16), "iv": draw(iv_spec), "name": draw(fs_names),
-            "old_sort": draw(st.sampled_from([False] * 9 + [True]))}
+            "old_sort": draw(st.sampled_from([False] * 9 + [True])),
+            "exec": draw(st.sampled_from(["thread", "thread", "lifo", "fifo"]))}
 
 
 def enum_real(tier, shard, nshards):
@@ -421,7 +440,7 @@ def enum_real(tier, shard, nshards):
 TAMPERS_DOC = [
     "none", "stream_name", "suggested_file_name", "key_flip", "key_len", "blob_hash_flip", "iv_flip", "length_delta",
     "blob_num_set", "swap", "swap_payload", "drop", "drop_renumber", "dup", "remove_terminator", "terminator_hash",
-    "terminator_length", "terminator_length_hash", "terminator_first", "reverse_data", "zero_length",
+    "terminator_hash_empty", "terminator_length", "terminator_length_hash", "terminator_first", "reverse_data", "zero_length",
     "zero_length_nohash", "empty_blobs", "only_terminator", "stream_hash_flip", "del_top", "del_blob_member",
     "type_top", "type_blob_entry", "type_scalar", "shift_iv_length", "shift_name_key", "shift_key_name",
     "shift_key_suggested", "shift_hash_num", "shift_num_iv", "extra_member",
@@ -484,6 +503,8 @@ def apply_tamper(doc, t):
         blobs.pop()
     elif kind == "terminator_hash":
         blobs[-1]["blob_hash"] = hashlib.sha384(b"t%d" % v).hexdigest()
+    elif kind == "terminator_hash_empty":
+        blobs[-1]["blob_hash"] = ""      # the member is there, its value is falsy
     elif kind == "terminator_length":
         blobs[-1]["length"] = 1 + v % 5000
     elif kind == "terminator_length_hash":
@@ -832,12 +853,13 @@ def selftest():
 PARTS = [
     Part("stream_scaled", lambda tier: scaled_case(), run_stream, 300, 2500, quick_shards=4, thorough_shards=16,
          essential=("scaled_effective", "data_blobs_1", "data_blobs_2", "data_blobs_4+", "size_exact_multiple_of_chunk",
-                    "size_one_byte_more", "name_special")),
+                    "size_one_byte_more", "name_special", "exec:deferred_lifo")),
     Part("stream_real", None, run_stream, 0, 0, quick_shards=4, thorough_shards=16, enumerate_cases=enum_real,
          essential=("mode:real", "data_blobs_1", "data_blobs_2", "data_blobs_3")),
     Part("tamper", lambda tier: tamper_case(), run_tamper, 2000, 20000, quick_shards=4, thorough_shards=16,
          essential=("class:hash_mismatch", "class:invariant", "class:unparsable", "class:malformed", "class:consistent",
-                    "hash_neutral_accepted", "recommitted", "tamper:remove_terminator", "tamper:swap", "tamper:none")),
+                    "hash_neutral_accepted", "recommitted", "tamper:remove_terminator", "tamper:swap", "tamper:none",
+                    "tamper:terminator_hash_empty")),
     Part("names", lambda tier: name_case(), run_name, 2500, 30000, quick_shards=4, thorough_shards=16,
          essential=("has_illegal", "has_c0", "default_name_used", "reserved", "blank_falls_back_to_claim_name")),
 ]
